@@ -16,9 +16,9 @@ CLAIMED = {
             "xarray may widen selections before the backend is called; bound checked against the selection's line span", "7 C11"),
     "C05": ("Lean theorems attitude / data_quality / facility_1_4 / volume_directory / trailer / leader / static_records on the record layouts regenerated from /repo (incl. their this-expressions): a successful parse consumes exactly the declared bytes for every count and length; layout correspondence; all-N oracle with field-by-field comparison after each variable record",
             "the interpreter's meaning of construct classes is tied by differential testing; trailer_images / trailer_samples: the trailer reader decodes image i from the bytes between the running sums of the declared lengths (model tied by the trailer correspondence); numpy's frombuffer/reshape are contracts", "7 C05"),
-    "C07": ("Lean theorems read_valid / cache_is_used / no_cache_consulted over a state machine on the TEXT of the two index files, parametric in json.loads (two contracts), using the codec round trip; correspondence of codec, json and the cache-first open on real files; oracle over producer x location x filesystem x rpc(write) x rpc(read)",
+    "C07": ("Lean theorems read_valid / cache_is_used / no_cache_consulted over a state machine on the TEXT of the two index files, parametric in json.loads (two contracts), using the codec round trip; correspondence of codec, json and the cache-first open on real files, and of the reader's image group as the codec sees it (bridge, H11); oracle over producer x location x filesystem x rpc(write) x rpc(read)",
             "EnvOK assumptions (rpc-stability and codec domain of the uncached groups, json contracts) are hypotheses; non-local filesystems are a recorded known finding", "7 C07"),
-    "C08": ("Lean theorem decode_encode: decodeDoc r (encodeDoc g) = g.withRpc r for every group in a decidable codec domain (structural induction; incl. calendar/text round trip of datetime references), tuple_tag, document_is_json; text-exact correspondence with caching.encode/decode",
+    "C08": ("Lean theorem decode_encode: decodeDoc r (encodeDoc g) = g.withRpc r for every group in a decidable codec domain (structural induction; incl. calendar/text round trip of datetime references), tuple_tag, document_is_json; text-exact correspondence with caching.encode/decode on generated hierarchies and on the groups the reader builds from synthesised image files (bridge, H11)",
             "json float/int round trip and ndarray.tolist/np.array are contracts; zero-size rank>=2 arrays are a recorded known finding", "7 C08"),
     "C09": ("Lean theorems prefix_not_json (no proper non-empty prefix of a dumped JSON container is balanced), open_after_crash (every state of arbitrary prefixes at both locations), repair; every-prefix oracle on real documents, SIGKILL runs in the thorough tier",
             "that an interrupted write leaves a prefix is OS behaviour (sampled); json.loads rejecting unbalanced text is a contract (tested on every prefix)", "7 C09"),
@@ -42,8 +42,8 @@ CLAIMED = {
             "the property's attitude clause is false for the code (recorded known finding, test suite pins it); timedelta/strptime are contracts", "7 C17"),
     "C19": ("Lean theorems noninterference (every interleaving, any number of loads), finished_equals_solo, no_deadlock, completes over an interleaving model whose per-load program is the getitem trace; source facts (private handle, per-variable lock) re-read from the AST; deterministic-scheduler oracle enumerating interleavings of real threads",
             "real schedules / GIL / lock implementation only enumerated at filesystem yield points", "7 C19"),
-    "C20": ("Lean theorems blank_int/float/text, no_derived_attribute, padding_inert + padding_inert_leader_records (dataset summary, radiometric, facility-5, platform-position, map-projection records: records agreeing on live-field bytes give equal output), padding_inert_counted_records (attitude, data quality: only the count and the entries present matter; unused slots, trailing blanks, preamble are inert), padding_inert_volume_directory (file-pointer records are inert), live_fields_only(2), field_locality (13 fixed-size layouts); oracle: nullable fields blanked individually and in subsets, padding rewritten with random content",
-            "line records: padding inertness by field_locality + the oracle (the microsecond stamp depends on a second field)", "7 C20"),
+    "C20": ("Lean theorems blank_int/float/text, no_derived_attribute, padding_inert + padding_inert_leader_records (dataset summary, radiometric, facility-5, platform-position, map-projection records: records agreeing on live-field bytes give equal output), padding_inert_counted_records (attitude, data quality: only the count and the entries present matter; unused slots, trailing blanks, preamble are inert), padding_inert_volume_directory (file-pointer records are inert), live_fields_only(2), field_locality (13 fixed-size layouts), padding_inert_line_records (any number of line records of either kind) and padding_inert_image_file (whole image files through the layout-based reader, every records_per_chunk); oracle: nullable fields blanked individually and in subsets, padding rewritten with random content; byte influence map (changed output leaves per changed input byte vs the layout + provenance prediction; quick: sampled positions, thorough: every position of two products)",
+            "bool(-1)=True for blank flag columns is exempt by the property's wording; the influence map is an oracle (a search), the theorems carry the universal claim", "7 C20"),
     "C18": ("Lean theorems records_within_file / cut_file_never_complete (layout-based reader: returned records lie inside the file, a cut file never yields its declared number of records, for every records_per_chunk), truncated_image (addressing model, arbitrary bytes: short file => error or fewer than n records), complete_image, missing_summary; whole-product correspondence on damaged products (error classes of truncated / removed / corrupted files); truncation/missing-file oracle over every record boundary +-1 x rpc",
             "xarray.Dataset's dimension check and promptness are not proved (measured)", "7 C18"),
 }
